@@ -204,20 +204,20 @@ def chain_oracle(ctx, models, results) -> Dict[str, Any]:
 
 
 def streams(ctx: lib.Ctx) -> None:
-    results = gx.pattern_stream(ctx, ctx.n(120, 2000), ctx.n(20, 40))
+    results = gx.pattern_stream(ctx, ctx.n(120, 600), ctx.n(20, 30))
     pstats = pattern_oracle(ctx, results)
     nontriv = [r["pattern"] for r in results if re.search(r"\\[xuU]|\[|[*+?{]", r["pattern"])]
     ctx.count("patterns", len(results) + pstats["strings"], nontrivial_keys=nontriv,
               validated=len(results), **pstats)
 
-    models = gx.gen_models(ctx.rng, ctx.n(5, 40), inject_share=0.4)
-    cmodels = gx.gen_chain_models(ctx.rng, ctx.n(6, 40))
-    models += gx.gen_sites_models(ctx.rng, ctx.n(3, 9))
+    models = gx.gen_models(ctx.rng, ctx.n(5, 14), inject_share=0.4)
+    cmodels = gx.gen_chain_models(ctx.rng, ctx.n(6, 16))
+    models += gx.gen_sites_models(ctx.rng, ctx.n(3, 6))
     import concurrent.futures
     with concurrent.futures.ThreadPoolExecutor(max_workers=1) as side:
         # both streams are bound by subprocesses (real CLI runs): overlap them
         cfuture = side.submit(gx.run_chain_models, cmodels, ctx.n(10, 20))
-        mres = gx.run_models(models, n_docs=ctx.n(40, 60), mutants_per_doc=6)
+        mres = gx.run_models(models, n_docs=ctx.n(40, 50), mutants_per_doc=6)
         cres = cfuture.result()
     mstats = model_oracle(ctx, models, mres)
     nontrivial = mstats.pop("nontrivial")
